@@ -114,7 +114,7 @@ func lsIsAtomicObjType(n string) bool {
 	switch n {
 	case "sync.Map", "sync.Once", "sync.WaitGroup", "atomic.Value", "atomic.Int32", "atomic.Int64", "atomic.Uint32", "atomic.Uint64",
 		"atomic.Bool", "atomic.Pointer", "xatomic.Pointer":
-		return true
+		return true // (channels: see lsClassify)
 	}
 	return false
 }
@@ -454,8 +454,10 @@ func lsIsAtomicPkgCall(c *ast.CallExpr) bool {
 // classify the use of a location whose base expression is `base` (an identifier, or recv.field)
 // and whose static type name is tname.
 func lsClassify(par parents, base ast.Node, tname string, helpers map[string]*ast.FuncDecl) lsClass {
-	isChan := false // channel operations go through the reference: the variable itself is only read
-	_ = tname
+	// a channel variable stands for the open/closed state of its channel: a send must not run
+	// concurrently with close (send = read of that state, close = write); receives, len, cap and
+	// handing the channel value on do not touch it
+	isChan := tname == "chan"
 	// climb through the access path
 	top := base
 	direct := true // `top` is still the location itself (no index / field / deref applied)
@@ -520,15 +522,15 @@ func lsClassify(par parents, base ast.Node, tname string, helpers map[string]*as
 			return lsClass{write: true, sync: "plain"}
 		}
 		if isChan && direct {
-			return lsClass{sync: "atomic"}
+			return lsClass{skip: true}
 		}
 	case *ast.SendStmt:
 		if x.Chan == top && isChan && direct {
-			return lsClass{write: true, sync: "atomic"}
+			return lsClass{sync: "plain", note: "send"}
 		}
 	case *ast.UnaryExpr:
 		if x.Op == token.ARROW && isChan && direct {
-			return lsClass{write: true, sync: "atomic"}
+			return lsClass{skip: true}
 		}
 		if x.Op == token.AND {
 			up := ast.Node(x)
@@ -559,9 +561,12 @@ func lsClassify(par parents, base ast.Node, tname string, helpers map[string]*as
 			return lsClass{write: true, sync: "unknown", note: "address taken"}
 		}
 	case *ast.CallExpr:
-		if id, ok := x.Fun.(*ast.Ident); ok && isChan && direct && (id.Name == "close" || id.Name == "len" || id.Name == "cap") {
-			return lsClass{write: id.Name == "close", sync: "atomic"}
+		if id, ok := x.Fun.(*ast.Ident); ok && isChan && direct && id.Name == "close" {
+			return lsClass{write: true, sync: "plain", note: "close"}
 		}
+	}
+	if isChan && direct {
+		return lsClass{skip: true}
 	}
 	if deref {
 		// *p used as a value
@@ -890,82 +895,129 @@ func (fr *lsFrame) inLoopBelow(n ast.Node, stop ast.Node) bool {
 	return false
 }
 
-// does the local closure `lit` (bound to obj) run at most once per instance of a variable declared in D
-func (a *lsAn) once(obj *ast.Object, fr *lsFrame, D ast.Node, depth int) (bool, ast.Node) {
-	if depth > 3 {
+// does the literal `lit` run at most once per instance of a variable declared in D; if so, the
+// nodes from which the question continues outwards (its hand-off / call sites)
+func (a *lsAn) runsOnce(lit *ast.FuncLit, fr *lsFrame, D ast.Node, depth int) (bool, []ast.Node) {
+	if depth > 6 {
 		return false, nil
 	}
-	var callSite ast.Node
-	n := 0
-	for _, u := range fr.uses[obj] {
-		if u.Pos() == obj.Pos() {
-			continue
+	h := a.classifyUse(lit, fr)
+	switch h.kind {
+	case "inline":
+		return true, []ast.Node{h.site}
+	case "goBody", "timerCb", "finalizer":
+		return true, []ast.Node{h.site}
+	case "sourceCb":
+		if (h.pos == "error" || h.pos == "complete") && !h.more {
+			return true, []ast.Node{h.site} // at most one terminal per subscription
 		}
-		n++
-		c, ok := fr.par[u].(*ast.CallExpr)
-		if !ok || c.Fun != ast.Expr(u) {
+		return false, nil
+	case "returned":
+		if fr.innermostFunc(h.site) == D && lsReturnsTeardown(funcType(D)) {
+			return true, []ast.Node{h.site}
+		}
+		return false, nil
+	case "named":
+		var sites []ast.Node
+		for _, u := range fr.uses[h.obj] {
+			if u.Pos() == h.obj.Pos() {
+				continue
+			}
+			c, ok := fr.par[u].(*ast.CallExpr)
+			if !ok || c.Fun != ast.Expr(u) {
+				return false, nil // used as a value somewhere
+			}
+			sites = append(sites, c)
+		}
+		if len(sites) == 1 {
+			return true, sites
+		}
+		if len(sites) == 0 {
 			return false, nil
 		}
-		switch fr.par[c].(type) {
-		case *ast.GoStmt:
-			return false, nil
+		// several call sites: fine when they sit in different clauses of one switch
+		var sw ast.Node
+		seen := map[ast.Node]bool{}
+		for _, c := range sites {
+			var clause, parent ast.Node
+			for cur := fr.par[c]; cur != nil; cur = fr.par[cur] {
+				if cc, ok := cur.(*ast.CaseClause); ok {
+					clause = cc
+					if b, ok := fr.par[cc].(*ast.BlockStmt); ok {
+						parent = fr.par[b]
+					}
+					break
+				}
+			}
+			if clause == nil || parent == nil || seen[clause] || (sw != nil && sw != parent) {
+				return false, nil
+			}
+			seen[clause] = true
+			sw = parent
 		}
-		callSite = c
-	}
-	if n != 1 {
-		return false, nil
-	}
-	f := fr.innermostFunc(callSite)
-	if fr.inLoopBelow(callSite, f) {
-		return false, nil
-	}
-	if f == D {
-		return true, callSite
-	}
-	if lit, ok := f.(*ast.FuncLit); ok {
-		h := a.classifyUse(lit, fr)
-		if h.kind == "sourceCb" && (h.pos == "error" || h.pos == "complete") && !h.more && !a.isMulti(h.site, fr, D, depth+1) {
-			return true, callSite
-		}
+		return true, sites
 	}
 	return false, nil
 }
 
-// can the hand-off at `site` be live several times for one instance of a variable declared in D
+// does the local closure bound to obj run at most once (and from where is it called)
+func (a *lsAn) once(obj *ast.Object, fr *lsFrame, D ast.Node, depth int) (bool, ast.Node) {
+	var lit *ast.FuncLit
+	switch d := obj.Decl.(type) {
+	case *ast.AssignStmt:
+		for i, l := range d.Lhs {
+			if id, ok := l.(*ast.Ident); ok && id.Obj == obj && i < len(d.Rhs) {
+				lit, _ = d.Rhs[i].(*ast.FuncLit)
+			}
+		}
+	case *ast.ValueSpec:
+		for i, n := range d.Names {
+			if n.Obj == obj && i < len(d.Values) {
+				lit, _ = d.Values[i].(*ast.FuncLit)
+			}
+		}
+	}
+	if lit == nil {
+		return false, nil
+	}
+	ok, sites := a.runsOnce(lit, fr, D, depth)
+	if !ok || len(sites) != 1 {
+		return false, nil
+	}
+	if a.isMulti(sites[0], fr, D, depth+1) {
+		return false, nil
+	}
+	return true, sites[0]
+}
+
+// can the code at `site` run several times for one instance of a variable declared in D
 func (a *lsAn) isMulti(site ast.Node, fr *lsFrame, D ast.Node, depth int) bool {
-	if depth > 6 {
+	if depth > 8 {
 		return true
 	}
-	cur := site
-	for {
-		f := fr.innermostFunc(cur)
-		if fr.inLoopBelow(cur, f) {
-			return true
-		}
-		if f == D {
+	f := fr.innermostFunc(site)
+	if fr.inLoopBelow(site, f) {
+		return true
+	}
+	if f == D {
+		return false
+	}
+	if f == fr.root {
+		if fr.caller == nil {
 			return false
 		}
-		if f == fr.root {
-			if fr.caller == nil {
-				return false // D is outside this frame's root only for helper frames
-			}
-			return a.isMulti(fr.call, fr.caller, D, depth+1)
-		}
-		lit := f.(*ast.FuncLit)
-		h := a.classifyUse(lit, fr)
-		switch h.kind {
-		case "inline":
-			cur = h.site
-		case "named":
-			ok, cs := a.once(h.obj, fr, D, depth+1)
-			if !ok {
-				return true
-			}
-			cur = cs
-		default:
+		return a.isMulti(fr.call, fr.caller, D, depth+1)
+	}
+	ok, sites := a.runsOnce(f.(*ast.FuncLit), fr, D, depth+1)
+	if !ok {
+		return true
+	}
+	for _, s := range sites {
+		if a.isMulti(s, fr, D, depth+1) {
 			return true
 		}
 	}
+	return false
 }
 
 // awaited: the subscribing goroutine (D's own body) waits for the subscription it has just made —
